@@ -8,15 +8,15 @@ open Rx Rx.Gen.MergeThreads
 def absTMerge (g : MergeObserver) : St2 := .merge g.observer.isSome g.completed_one
 
 theorem tieT_Merge_next (g : MergeObserver) (sd : Side) (v : Val) :
-    (MergeObserver.next g v).map (fun r => (absTMerge r.1, r.2)) = some (St2.step (absTMerge g) sd (.next v)) := by
+    (MergeObserver.next g v).map (fun r => (absTMerge r.1, r.2)) = some (Rs.lift (St2.step (absTMerge g) sd (.next v))) := by
   rcases g with ⟨_ | _, c⟩ <;> rs_tie [MergeObserver.next, absTMerge, St2.step, St2.guard]
 
 theorem tieT_Merge_error (g : MergeObserver) (sd : Side) (e : Err) :
-    (MergeObserver.error g e).map (fun r => (absTMerge r.1, r.2)) = some (St2.step (absTMerge g) sd (.error e)) := by
+    (MergeObserver.error g e).map (fun r => (absTMerge r.1, r.2)) = some (Rs.lift (St2.step (absTMerge g) sd (.error e))) := by
   rcases g with ⟨_ | _, c⟩ <;> rs_tie [MergeObserver.error, absTMerge, St2.step, St2.guard]
 
 theorem tieT_Merge_complete (g : MergeObserver) (sd : Side) :
-    (MergeObserver.complete g).map (fun r => (absTMerge r.1, r.2)) = some (St2.step (absTMerge g) sd .complete) := by
+    (MergeObserver.complete g).map (fun r => (absTMerge r.1, r.2)) = some (Rs.lift (St2.step (absTMerge g) sd .complete)) := by
   rcases g with ⟨_ | _, _ | _⟩ <;> rs_tie [MergeObserver.complete, absTMerge, St2.step, St2.guard]
 
 
